@@ -408,7 +408,9 @@ func xbuild(seed uint64) *xworld {
 				if uint32(a[1]) == 99 {
 					return nil, "host boom"
 				}
-				return []uint64{a[0] + uint64(uint32(a[1]))}, ""
+				// + first byte of the CALLING module's name: h_mod is imported by "b" only, also when the
+				// host entered through "a" (the host function must be handed its caller, whatever listeners exist)
+				return []uint64{a[0] + uint64(uint32(a[1])) + uint64('b')}, ""
 			}}
 		w.fns["env.h_mod"], w.byKey[hm.key()] = hm, hm
 	}
@@ -907,7 +909,7 @@ func xrun(w *xworld, compiler bool, rec *xrec) (outs []xoutcome, fail string) {
 				if uint32(stack[1]) == 99 {
 					panic(errors.New("host boom"))
 				}
-				stack[0] = stack[0] + uint64(uint32(stack[1]))
+				stack[0] = stack[0] + uint64(uint32(stack[1])) + uint64(m.Name()[0])
 			}), []api.ValueType{api.ValueTypeI64, api.ValueTypeI32}, []api.ValueType{api.ValueTypeI64}).WithName("h_mod").Export("h_mod")
 	}
 	if _, err := hb.Instantiate(ctx); err != nil {
@@ -1253,4 +1255,33 @@ func xcheckCall(w *xworld, eng, mode string, c xcall, o, base xoutcome, mres []u
 		viol(fmt.Sprintf("cross-module:event-stream-differs-from-model:got=%s,want=%s", xkinds(gk), xkinds(xk)),
 			fmt.Sprintf("received %d events, the model expects %d", len(o.events), len(exp)))
 	}
+}
+
+// GuestVisibleFinding is a finding of the cross-module scenario that concerns guest-visible behaviour only.
+type GuestVisibleFinding struct {
+	Sig, Detail string
+	Witness     any
+}
+
+// CrossGuestVisible runs one cross-module case (2-3 wasm modules + host module, both engines, no listeners and five
+// listener sets) and returns only what a guest or its caller can see: top-level results and errors that differ from
+// the model / from the run without listeners, calls failing with Go runtime errors, panics escaping a call. C12 uses
+// it for "function listeners attached do not change guest behaviour" with call chains that cross modules.
+func CrossGuestVisible(seed uint64) (out []GuestVisibleFinding, calls int, shape string) {
+	r := crossChild(core.J(xcase{Seed: seed})).(xresult)
+	for _, f := range r.Findings {
+		for _, k := range []string{"toplevel-result-differs-from-model", "guest-result-differs-with-listeners", "call-failed-with-go-runtime-error",
+			"go-panic-escaped-call", "unexpected-call-error", "wrong-error", "expected-failure-did-not-happen"} {
+			if strings.Contains(f.Sig, k) {
+				out = append(out, GuestVisibleFinding{f.Sig, f.Detail, f.Witness})
+				break
+			}
+		}
+	}
+	for k, v := range r.Counts {
+		if strings.Contains(k, "calls") && !strings.Contains(k, "failing") {
+			calls += v
+		}
+	}
+	return out, calls, r.Shape
 }
